@@ -9,6 +9,8 @@ import PyamgV.Proofs.RsSafe
 import PyamgV.Proofs.C17Safe
 import PyamgV.Proofs.C17Safe2
 import PyamgV.Proofs.C17Safe3
+import PyamgV.Proofs.C17Safe4
+import PyamgV.Proofs.C17Safe5
 import PyamgV.Proofs.Bfs
 import PyamgV.Proofs.CC
 import PyamgV.Proofs.ColoringLoop
@@ -46,6 +48,8 @@ restate gauss_seidel_indexed_safe := PyamgV.C17.gsIndexed_safe
 restate gauss_seidel_ne_safe := PyamgV.C17.gsNe_safe
 /-- `gauss_seidel_nr` on CSC arrays (`x`, `D_inv` per column, `r` per row) -/
 restate gauss_seidel_nr_safe := PyamgV.C17.gsNr_safe
+/-- `jacobi_ne` (its loops are `i < row_stop`): `0 ≤ start`, `stop ≤ n`, `step > 0`, terminates within `stop - start` steps -/
+restate jacobi_ne_safe := PyamgV.C17.jacobiNe_safe
 /-- an admissible range visits at most `n` rows (so fuel `n` always suffices) -/
 restate admissible_at_most_n_rows := PyamgV.C17.adm_le
 
@@ -84,12 +88,29 @@ restate rs_step_bounds := PyamgV.RS.step_bounds
 restate symmetric_strength_safe := PyamgV.C17.symSoc_safe
 /-- `naive_aggregation`: `y[next_aggregate-1]` is in range because `next_aggregate - 1 ≤ i` -/
 restate naive_aggregation_safe := PyamgV.C17.naiveAgg_safe
+/-- `standard_aggregation`, any structurally valid pattern (symmetric or not): the sentinels `0` / `-n` and the root
+writes `y[next-1]` (pass 1), `y[next]` (pass 3) stay in range; the pass-3 bound is the counting invariant
+`next + #{unmarked rows ≥ i} ≤ n`; the returned count lies in `0..n` -/
+restate standard_aggregation_safe := PyamgV.C17.stdAgg_safe
 /-- `csc_scale_columns` -/
 restate csc_scale_columns_safe := PyamgV.C17.scaleColumns_safe
 /-- `csc_scale_rows` -/
 restate csc_scale_rows_safe := PyamgV.C17.scaleRows_safe
 
+/-! ### evolution_strength.h, air.h -/
+/-- `apply_distance_filter` -/
+restate apply_distance_filter_safe := PyamgV.C17.distFilter_safe
+/-- `apply_absolute_distance_filter` -/
+restate apply_absolute_distance_filter_safe := PyamgV.C17.absDistFilter_safe
+/-- `min_blocks`: `Sx` of length `n_blocks·blocksize`, `Tx` of length `n_blocks` -/
+restate min_blocks_safe := PyamgV.C17.minBlocks_safe
+/-- `one_point_interpolation`: the private `pointInd` vector and the cursor `next ≤ row` into `Pj`, `Px` (length `n`) -/
+restate one_point_interpolation_safe := PyamgV.C17.onePoint_safe
+
 /-! ### graph.h -/
+/-- `bellman_ford`: every pass stays inside `d`, `m`, `p` and the CSR arrays, for any number of passes
+(termination: `bellman_ford_total`) -/
+restate bellman_ford_safe := PyamgV.C17.bellmanFord_safe
 /-- `maximal_independent_set_serial` (flag-threading style) -/
 restate mis_serial_safe := PyamgV.Safe.misSerial_safe
 /-- `breadth_first_search`: `order[N]` is in range by the counting invariant `N + #unlabelled = n` -/
